@@ -334,9 +334,49 @@ func (f *Frame) contractCall(st *State, r *Term, target *ssa.Function, tmap TMap
 			eff = ctx.eng.effectsOf(target, f)
 		}
 		if spareCapacity(ct) {
-			// the callee may write spare capacity anywhere: nothing is known about element arrays afterwards
+			// the callee may write spare capacity anywhere: nothing is known about element arrays (E.*)
+			// afterwards; the other components change only where the rest of its write frame says
 			f.frameCheckCall(st, r, calleeShort, nil, false, pos)
-			f.havocTop(st)
+			locs := cf.evalModLocs(ct, pre)
+			comps := map[string]Sort{}
+			for _, l := range locs {
+				comps[l.comp] = l.srt
+			}
+			old := copyHeap(st.heap)
+			oldBase := st.base
+			earr := map[string]Sort{}
+			for name, srt := range ctx.eng.compSeen {
+				if strings.HasPrefix(name, "E.") {
+					earr[name] = srt
+				}
+			}
+			for name, t := range st.heap {
+				if strings.HasPrefix(name, "E.") {
+					earr[name] = t.S
+				}
+			}
+			all := map[string]Sort{}
+			for k, v := range comps {
+				all[k] = v
+			}
+			for k, v := range earr {
+				all[k] = v
+			}
+			f.havocComps(st, all)
+			names := make([]string, 0, len(comps))
+			for k := range comps {
+				if _, isE := earr[k]; !isE {
+					names = append(names, k)
+				}
+			}
+			sort.Strings(names)
+			for _, k := range names {
+				before, ok := old[k]
+				if !ok {
+					before = ctx.constant(fmt.Sprintf("%s@%d", k, oldBase), comps[k])
+				}
+				ctx.assume(f.frameAxiom(k, before, st.heap[k], locs, pre.alloc))
+			}
 		} else if ct.ModifiesSet || ct.Fresh {
 			locs := cf.evalModLocs(ct, pre)
 			f.frameCheckCall(st, r, calleeShort, locs, true, pos)
